@@ -137,6 +137,15 @@ def ctx_gather_nullable_sep(b):
     return ('seq', ('gather', ('grp', ('alt', T2, ('look', T1))), seq(b[0])), *b[1]), []
 
 
+def ctx_include_in_closure_in_optional(b):
+    # the cut sits in a rule whose right hand side is included: >inc stands for that right hand side, cut and all
+    return ('seq', ('opt', ('clo', ('inc', 'inc1'))), *b[1]), [gs.Rule('inc1', seq(b[0]))]
+
+
+def ctx_include_in_choice(b):
+    return ('alt', ('seq', ('inc', 'inc1'), T1), seq(b[1])), [gs.Rule('inc1', seq(b[0]))]
+
+
 def expansion(name, b):
     """The documentation's own equivalences as grammars (docs/syntax.rst, section on ~):
     [x] == B -> x | ();  {x} == B -> x B | ();  {x}+ == B -> x B | x.  Returns (start exp, rules) or None."""
@@ -162,6 +171,7 @@ CONTEXTS = [
     ('closure-in-optional', 2, ctx_closure_in_optional), ('optional-in-optional', 2, ctx_optional_in_optional),
     ('join-in-optional', 2, ctx_join_in_optional),
     ('pjoin-nullable-sep', 2, ctx_pjoin_nullable_sep), ('gather-nullable-sep', 2, ctx_gather_nullable_sep),
+    ('include-in-closure-in-optional', 2, ctx_include_in_closure_in_optional), ('include-in-choice', 2, ctx_include_in_choice),
 ]
 
 # which body slots may receive cuts, per context (tails that are spliced into the
@@ -170,7 +180,7 @@ CUT_SLOTS = {
     'choice': (0, 1), 'optional': (0,), 'closure': (0,), 'pclosure': (0,), 'join': (0,), 'gather': (0,),
     'nested-choice': (0, 1), 'opt-in-closure': (0,), 'rule': (0, 1), 'rule-body': (0,), 'closure-in-choice': (0,),
     'pclosure-in-choice': (0,), 'closure-in-optional': (0,), 'optional-in-optional': (0,), 'join-in-optional': (0,),
-    'pjoin-nullable-sep': (0,), 'gather-nullable-sep': (0,),
+    'pjoin-nullable-sep': (0,), 'gather-nullable-sep': (0,), 'include-in-closure-in-optional': (0,), 'include-in-choice': (0,),
 }
 
 
@@ -192,7 +202,9 @@ def programs(maxbody, maxcuts):
 
 
 def mk(exp, extra):
-    return gs.Grammar(rules=[c01.WRAP[0], gs.Rule('start', exp)] + list(extra) + [c01.WRAP[1]])
+    # (an included rule has to be defined before the rule that includes it; the wrapper rule stays first: it is the start)
+    inc = [r for r in extra if r.name.startswith('inc')]
+    return gs.Grammar(rules=[c01.WRAP[0]] + inc + [gs.Rule('start', exp)] + [r for r in extra if r not in inc] + [c01.WRAP[1]])
 
 
 class CountingRef(Ref):
